@@ -6,17 +6,15 @@ The enumeration order of a context's overload set is the order of the list
 `Layer.fns` in the model.  `LayersPerm ls ls'` says that `ls'` is `ls` with every
 layer's overloads enumerated in some other order.
 
-* `spec_perm_invariant`: the rule-shaped resolution `resolveSpec` is invariant - in full,
-  for every family - because each stage is a permutation-invariant function of the layer
-  (`visible_perm`, `stage_perm`, `choose_perm`).
-* `perm_invariant_partial`: hence so is the code-shaped `resolve` (the repaired selection:
-  "the unique match that specializes every other match") for every family in which the
-  tuple-vs-class `TypeError` of `PythonType.is_specialization_of` cannot arise.
-* `perm_invariant_full_false`: in the remaining families the CURRENT code is still order
-  dependent (TypeError or Ambiguous, depending on which comparison the short-circuiting
-  `all(...)` reaches first) - a recorded finding.
-* `old_order_dependent`: the selection before the repair (one left-to-right pass comparing
-  each match with the current winner) was order dependent on plain class lattices.
+* `perm_invariant`: the code-shaped `resolve` (chosen overload, bound arguments, evaluation log,
+  error class) is invariant under every layer-wise permutation - IN FULL, for every class graph,
+  family and call.  Proof: `resolve = resolveSpec` (C05) and each stage of `resolveSpec` is a
+  permutation-invariant function of the layer (`visible_perm`, `stage_perm`, `choose_perm`).
+* `old_order_dependent`: the winner selection before repair d8b1afa (one left-to-right pass
+  comparing each match with the current winner) was order dependent on plain class lattices.
+* `old_tuple_order_dependent`: the comparison before repair 9bf7e72 (`issubclass` raising
+  `TypeError` for a tuple-typed against a class-typed parameter) made the outcome - TypeError or
+  Ambiguous - depend on the order even with the repaired selection.
 -/
 namespace Yaql.Props.C06
 open Yaql.Types Yaql.Resolve Yaql.Props.C05
@@ -235,74 +233,14 @@ theorem spec_perm_invariant (L : Lattice) (c : Call) {ls ls' : List Layer} (h : 
             simp only at hl hp ⊢
             rw [hl, decide'_perm L hp]
 
-theorem familyTypes_perm {ls ls' : List Layer} (h : LayersPerm ls ls') (t : PTy) :
-    t ∈ familyTypes ls ↔ t ∈ familyTypes ls' := by
-  induction h with
-  | nil => simp
-  | cons hp _ _ ih =>
-      simp only [familyTypes, List.flatMap_cons, List.mem_append] at ih ⊢
-      rw [ih]
-      have : ∀ {a b : List FDef}, a.Perm b →
-          (t ∈ a.flatMap (fun f => f.params.map (·.ty)) ↔ t ∈ b.flatMap (fun f => f.params.map (·.ty))) := by
-        intro a b hab
-        simp only [List.mem_flatMap]
-        constructor
-        · rintro ⟨f, hf, ht⟩; exact ⟨f, hab.mem_iff.1 hf, ht⟩
-        · rintro ⟨f, hf, ht⟩; exact ⟨f, hab.mem_iff.2 hf, ht⟩
-      rw [this hp]
-
-theorem specTotal_perm (L : Lattice) {ls ls' : List Layer} (h : LayersPerm ls ls') (ht : SpecTotal L ls) :
-    SpecTotal L ls' := by
-  intro a ha b hb
-  exact ht a ((familyTypes_perm h a).2 ha) b ((familyTypes_perm h b).2 hb)
-
-/-- the full statement: the code-shaped resolution gives one outcome for all enumeration orders -/
-def perm_invariant_full : Prop :=
-  ∀ (L : Lattice) (c : Call) (ls ls' : List Layer), LayersPerm ls ls' → resolve L ls' c = resolve L ls c
-
-/-- **C06** for the repaired selection: whenever the `TypeError` of a tuple-vs-class comparison
-    cannot arise in the family (e.g. no `PythonType` over a tuple of classes, or only such),
-    the chosen overload, the bound arguments, the evaluation log and the error class do not
-    depend on the order in which any layer enumerates its overloads -/
-theorem perm_invariant_partial (L : Lattice) (c : Call) (ls ls' : List Layer) (h : LayersPerm ls ls')
-    (ht : SpecTotal L ls) : resolve L ls' c = resolve L ls c := by
-  rw [resolve_eq_spec L ls c ht, resolve_eq_spec L ls' c (specTotal_perm L h ht)]
+/-- **C06**: the chosen overload, the bound arguments, the evaluation log and the error class do
+    not depend on the order in which any layer enumerates its overloads -/
+theorem perm_invariant (L : Lattice) (c : Call) (ls ls' : List Layer) (h : LayersPerm ls ls') :
+    resolve L ls' c = resolve L ls c := by
+  rw [resolve_eq_spec L ls c, resolve_eq_spec L ls' c]
   exact spec_perm_invariant L c h
 
-/-! ## what is still order dependent, and what was -/
-
-namespace Ex
-open Yaql.Props.C05.Ex
-
-def num : PTy := .py (.many [6, 8]) false []        -- Number(): (int, float)
-def intTy : PTy := .py (.one 6) false []
-def i3 : Val := .obj 6 [] 9
-
-/-- `X(a: Base, b: object)`, `A(a: object, b: Number)`, `B(a: object, b: Integer)`, call `f(d, 3)` -/
-def fX := fn 0 [pos 'a' 0 (cls 1), pos 'b' 1 (cls 0)]
-def fA := fn 1 [pos 'a' 0 (cls 0), pos 'b' 1 num]
-def fB := fn 2 [pos 'a' 0 (cls 0), pos 'b' 1 intTy]
-def callD3 : Call := { receiver := none, args := [tick 1, .expr 2 2 true i3], kwargs := [] }
-
-theorem mixed_tuple_outcomes :
-    (resolve lat [{ fns := [fA, fB, fX], exclusive := false }] callD3).res = .error .pyTypeError ∧
-    (resolve lat [{ fns := [fX, fB, fA], exclusive := false }] callD3).res = .error .ambiguous := by
-  decide
-
-end Ex
-
-/-- on the current code the full statement fails: a family with a tuple-typed and a class-typed
-    parameter at one position gives `TypeError` or `Ambiguous` depending on the order -/
-theorem perm_invariant_full_false : ¬ perm_invariant_full := by
-  intro h
-  have hp : LayersPerm [{ fns := [Ex.fX, Ex.fB, Ex.fA], exclusive := false }]
-      [{ fns := [Ex.fA, Ex.fB, Ex.fX], exclusive := false }] :=
-    .cons (by decide) rfl .nil
-  have := h C05.Ex.lat Ex.callD3 _ _ hp
-  have h1 := Ex.mixed_tuple_outcomes
-  rw [this] at h1
-  rw [h1.2] at h1
-  exact absurd h1.1 (by decide)
+/-! ## what was order dependent before the repairs -/
 
 /-- the winner selection before the repair: one pass, each match compared with the current winner only -/
 def selectOld (L : Lattice) : Option Match → List Match → Except Err (Nat × Bound)
@@ -336,10 +274,69 @@ theorem old_order_dependent :
   rw [choose_perm _ h]
   decide
 
-/-- non-vacuity of `perm_invariant_partial`: a family with three simultaneously compatible
-    candidates satisfies the hypothesis -/
-example : SpecTotal C05.Ex.lat C05.Ex.famABC ∧
-    LayersPerm C05.Ex.famABC [{ fns := (C05.Ex.famABC.head!).fns.reverse, exclusive := false }] :=
-  ⟨by unfold SpecTotal; decide, .cons (by decide) rfl .nil⟩
+/-! ### the comparison before 9bf7e72 -/
+
+/-- `_is_specialization_of` over the pre-fix `is_specialization_of` (`none` = TypeError) -/
+def specLoopOld (L : Lattice) : List (PTy × PTy) → Bool → Option Bool
+  | [], res => some res
+  | (t1, t2) :: r, res =>
+      match isSpecializationOfOld L t2 t1 with
+      | none => none
+      | some true => some false
+      | some false =>
+          match isSpecializationOfOld L t1 t2 with
+          | none => none
+          | some true => specLoopOld L r true
+          | some false => specLoopOld L r res
+
+/-- `all(other is mapping or _is_specialization_of(mapping, other) ...)`, short-circuiting -/
+def allSpecOld (L : Lattice) (m : Match) : List Match → Option Bool
+  | [] => some true
+  | o :: r =>
+      if o.cand.fd.id == m.cand.fd.id then allSpecOld L m r
+      else match specLoopOld L (m.cand.mapping.typePairs o.cand.mapping) false with
+        | none => none
+        | some false => some false
+        | some true => allSpecOld L m r
+
+/-- the list comprehension `winners = [...]`; `none` = a TypeError escaped -/
+def winnersOld (L : Lattice) (ms : List Match) : List Match → Option (List Match)
+  | [] => some []
+  | m :: r =>
+      match allSpecOld L m ms with
+      | none => none
+      | some b => match winnersOld L ms r with
+          | none => none
+          | some ws => some (if b then m :: ws else ws)
+
+namespace Ex
+open Yaql.Props.C05.Ex
+
+def num : PTy := .py (.many [6, 8]) false []        -- Number(): (int, float)
+def intTy : PTy := .py (.one 6) false []
+/-- `X(a: Base, b: object)`, `A(a: object, b: Number)`, `B(a: object, b: Integer)` -/
+def mX := mk (fn 0 [pos 'a' 0 (cls 1), pos 'b' 1 (cls 0)])
+def mNum := mk (fn 1 [pos 'a' 0 (cls 0), pos 'b' 1 num])
+def mInt := mk (fn 2 [pos 'a' 0 (cls 0), pos 'b' 1 intTy])
+
+end Ex
+
+/-- before 9bf7e72: with `X`, `A(.., Number)`, `B(.., Integer)` all type-compatible, enumeration
+    order [A, B, X] let a TypeError escape while [X, B, A] found no winner (Ambiguous); the repaired
+    comparison gives the same answer - no winner, Ambiguous - in every order -/
+theorem old_tuple_order_dependent :
+    winnersOld C05.Ex.lat [Ex.mNum, Ex.mInt, Ex.mX] [Ex.mNum, Ex.mInt, Ex.mX] = none ∧
+    winnersOld C05.Ex.lat [Ex.mX, Ex.mInt, Ex.mNum] [Ex.mX, Ex.mInt, Ex.mNum] = some [] ∧
+    (∀ ms, ms.Perm [Ex.mNum, Ex.mInt, Ex.mX] → choose C05.Ex.lat ms = .error .ambiguous) := by
+  refine ⟨by decide, by decide, fun ms h => ?_⟩
+  rw [choose_perm _ h]
+  decide
+
+/-- non-vacuity: a family with three simultaneously compatible candidates and a permutation of it -/
+example : LayersPerm C05.Ex.famABC [{ fns := (C05.Ex.famABC.head!).fns.reverse, exclusive := false }] :=
+  .cons (by decide) rfl .nil
+
+example : (resolve C05.Ex.lat [{ fns := (C05.Ex.famABC.head!).fns.reverse, exclusive := false }] C05.Ex.callXX).res =
+    (resolve C05.Ex.lat C05.Ex.famABC C05.Ex.callXX).res := by decide
 
 end Yaql.Props.C06
